@@ -121,9 +121,10 @@ class Transaction:
                 raise FileNotFoundError(f"Data file does not exist: {data_file.file_path}")
             if table_schema is not None:
                 self._validate_file_schema(data_file, table_schema)
-            else:
+            elif data_file.file_path.lstrip("/") not in self._written_files:
                 # No persisted schema to check against YET (table not created,
-                # or created schema-less): checked again at commit time.
+                # or created schema-less): checked again at commit time. (Files
+                # this transaction wrote itself are covered by _written_schemas.)
                 self._unvalidated_files.append(data_file)
             if data_file.file_path.lstrip("/") not in self._written_files:
                 # A pre-built file was written by the caller's own writer: nothing
@@ -282,8 +283,10 @@ class Transaction:
             ]
 
         # Pre-built files queued while there was no schema to check them against
-        for data_file in self._unvalidated_files:
-            self._validate_file_schema(data_file, table_schema)
+        # (each is checked once: the persisted schema of a table never changes)
+        while self._unvalidated_files:
+            self._validate_file_schema(self._unvalidated_files[0], table_schema)
+            self._unvalidated_files.pop(0)
 
         expected = ordered(table_schema)
         for written in self._written_schemas:
